@@ -271,6 +271,14 @@ pub fn slot_boundary_seeds(n: usize) -> Vec<(u64, usize)> {
     }
 }
 
+/// Signer streams (key of seed LE64(0), message b"exact fit", stream id 1_000_000 + k, Falcon-1024) found with
+/// `falcon-mc diag fitscan`: first the streams whose compressed s2 leaves 0, 0, 0, 1, 1, 2, 2, ... 8 bits of the
+/// body unused, then streams whose first attempt does not fit the body at all, so that sign takes its
+/// compression-retry branch (about two thirds of these overshoot by at most 8 bits).
+pub fn tight_fit_streams() -> (Vec<u64>, Vec<u64>) {
+    (vec![5338, 8576, 19927, 8599, 11819, 6409, 9671, 190, 2925, 2807, 7260, 2051, 2550, 3568, 5772, 6085, 8833, 10860], vec![2990, 3155, 6936, 6969, 7929, 8289, 8300, 8711, 8910, 10124, 10497, 10526, 11319, 12527, 12590, 13028])
+}
+
 /// Seeds LE64(i) whose public key h has a coefficient equal to 0 (first entries) or to q-1 (last entries): the
 /// ends of the 14-bit field's valid range (found with `falcon-mc diag hzero` on the repaired tree).
 pub fn pk_edge_seeds(n: usize) -> Vec<u64> {
